@@ -489,9 +489,7 @@ pub trait BackendTransaction {
                             */
                             IdList::Indexed(r)
                         }
-                        (IdList::Indexed(ia), IdList::Partial(ib))
-                        | (IdList::Partial(ia), IdList::Indexed(ib))
-                        | (IdList::Partial(ia), IdList::Partial(ib)) => {
+                        (IdList::Partial(ia), IdList::Indexed(ib)) => {
                             let r = ia.andnot(ib);
                             // DO trigger threshold on partials, because we have to apply the filter
                             // test anyway, so we may as well shortcut at this point.
@@ -502,11 +500,7 @@ pub trait BackendTransaction {
                                 IdList::Partial(r)
                             }
                         }
-                        (IdList::Indexed(ia), IdList::PartialThreshold(ib))
-                        | (IdList::PartialThreshold(ia), IdList::Indexed(ib))
-                        | (IdList::PartialThreshold(ia), IdList::PartialThreshold(ib))
-                        | (IdList::PartialThreshold(ia), IdList::Partial(ib))
-                        | (IdList::Partial(ia), IdList::PartialThreshold(ib)) => {
+                        (IdList::PartialThreshold(ia), IdList::Indexed(ib)) => {
                             let r = ia.andnot(ib);
                             // DO trigger threshold on partials, because we have to apply the filter
                             // test anyway, so we may as well shortcut at this point.
@@ -516,6 +510,18 @@ pub trait BackendTransaction {
                             } else {
                                 IdList::PartialThreshold(r)
                             }
+                        }
+                        // A partial idl is only a superset of the entries that match the negated
+                        // term. Removing it from the candidates could remove entries that do NOT
+                        // match the negated term, and so should be returned. We keep the candidates
+                        // as they are and let the filter test decide.
+                        (IdList::Indexed(ia), IdList::Partial(_))
+                        | (IdList::Indexed(ia), IdList::PartialThreshold(_))
+                        | (IdList::Partial(ia), IdList::Partial(_))
+                        | (IdList::Partial(ia), IdList::PartialThreshold(_)) => IdList::Partial(ia),
+                        (IdList::PartialThreshold(ia), IdList::Partial(_))
+                        | (IdList::PartialThreshold(ia), IdList::PartialThreshold(_)) => {
+                            IdList::PartialThreshold(ia)
                         }
 
                         (IdList::Indexed(_), IdList::AllIds)
